@@ -23,7 +23,10 @@ DateStr(y, m, d) == Pad4(y) \o <<45>> \o Pad2(m) \o <<45>> \o Pad2(d)
 TimeStr(h, mi, s) == Pad2(h) \o <<58>> \o Pad2(mi) \o <<58>> \o Pad2(s)
 OffStrs == {<<>>, <<90>>, <<122>>} \cup {<<sg>> \o Pad2(h) \o <<58>> \o Pad2(m) : sg \in {43, 45}, h \in {0, 23, 24}, m \in {0, 59, 60}}
 EdgeDates == {DateStr(y, m, d) : y \in {0, 1, 1900, 2000, 2023, 2024, 9999}, m \in 0..13, d \in {0, 1, 28, 29, 30, 31, 32}}
-EdgeTimes == {TimeStr(h, mi, s) \o f : h \in {0, 23, 24}, mi \in {0, 59, 60}, s \in {0, 59, 60, 61}, f \in {<<>>, <<46>>, <<46, 53>>, <<46, 49, 50, 51, 52, 53, 54, 55, 56, 57, 48, 49, 50>>}}
+EdgeTimes == {TimeStr(h, mi, s) \o f : h \in {0, 23, 24}, mi \in {0, 59, 60}, s \in {0, 59, 60, 61}, f \in {<<>>, <<46>>, <<46, 53>>, <<46, 49, 50, 51, 52, 53, 54, 55, 56, 57, 48, 49, 50>>,
+                                                                                                             \* 9, 10 and 11 fraction digits: the edges of the truncation to nanoseconds
+                                                                                                             <<46, 49, 50, 51, 52, 53, 54, 55, 56, 57>>, <<46, 49, 50, 51, 52, 53, 54, 55, 56, 57, 48>>,
+                                                                                                             <<46, 49, 50, 51, 52, 53, 54, 55, 56, 57, 48, 49>>}}
 EdgeFull == {DateStr(1979, 5, 27) \o <<dl>> \o t \o o : dl \in {84, 116, 32}, t \in EdgeTimes, o \in OffStrs}
 \* parts in combinations the grammar does not have: an offset on a time or a date alone, a delimiter without a time
 EdgeCombos == {TimeStr(7, 32, 0) \o f \o o : f \in {<<>>, <<46, 53>>}, o \in OffStrs}
